@@ -194,7 +194,8 @@ func errText(err error) string {
 // Exec runs the scenario's operation under the gate's current plan and returns the op's events
 // (Call, Msg*, Return). hang = the op did not return within the watchdog.
 func (e *Env) Exec(sc *Scenario, b *Built, opID string, watchdog time.Duration) []Event {
-	ctx := Op(opID)
+	ctx, cancelOp := context.WithCancel(Op(opID))
+	e.G.CancelOp = cancelOp
 	op := sc.Op
 	evs := []Event{{"ev": "Call", "op": opID, "kind": op.Kind, "spec": op}}
 	done := make(chan []Event, 1)
